@@ -20,6 +20,7 @@ const (
 	RSkipJunk      // (stream) the skip scanner ignores bytes that cannot start a value
 	RStrAnyEscape  // (Compact/Indent) a backslash may be followed by any byte
 	RNulSkipped    // (stream) embedded NUL bytes are dropped when the reader can still be asked for data
+	RTopDecoded    // (with RSkip) the destination is a struct: the top-level value and its member names are decoded, only member values may be skipped
 )
 
 // RelaxNames lists the named relaxations in the order explanations are tried. Scope says which
@@ -236,7 +237,7 @@ func (r *rec) str() bool {
 }
 
 func (r *rec) value(depth int) bool {
-	if r.rx&RSkip != 0 {
+	if r.rx&RSkip != 0 && !(r.rx&RTopDecoded != 0 && depth == 0) {
 		save := r.i
 		if r.skipFirst {
 			if r.skipScan() {
@@ -361,8 +362,17 @@ func (r *rec) value1(depth int) bool {
 			if r.i >= len(r.b) || r.b[r.i] != '"' {
 				return false
 			}
+			ks := r.i
 			if !r.str() {
-				return false
+				// a struct destination steps over the rest of a member name it does not know like
+				// over a skipped string (closing quote, backslash protects a byte); it is a string
+				if r.rx&RSkip == 0 || r.rx&RTopDecoded == 0 || depth != 0 {
+					return false
+				}
+				r.i = ks
+				if !r.skipString() {
+					return false
+				}
 			}
 			r.ws()
 			if r.i >= len(r.b) || r.b[r.i] != ':' {
